@@ -5,6 +5,7 @@ Leg `lib`: rgmon c16. Leg `cli`: `rg -m N [-A a -B b]` vs the grep model cut
 after the N-th matching line plus the trailing context it is entitled to.
 """
 
+import base64
 import json
 import subprocess
 
@@ -97,6 +98,45 @@ def cli_case(case, env):
                      "rg -m %d %s: printed lines %s, expected %s" % (n, " ".join(args), [g[0] for g in got][:12], [w[0] for w in want][:12]),
                      {"kind": "cli", "argv": argv[:-1] + ["<file>"], "input": case["input"],
                       "stdout": esc(so[:3000]), "expected": [[w[0], esc(w[1])] for w in want][:200]})
+        # the same limit through the JSON printer (its own match counting and
+        # after-context bookkeeping)
+        rep["evaluations"] += 1
+        jargv = ["--json"] + [a for a in argv if a not in ("--no-heading",)]
+        rj = common.run_rg(jargv, env.tmp, env.home)
+        if rj is None:
+            env.inconclusive("watchdog")
+        else:
+            env.count("rg_runs")
+            jgot, jbad = [], False
+            for rec in rj[1].split(b"\n"):
+                if not rec:
+                    continue
+                try:
+                    o = json.loads(rec)
+                except ValueError:
+                    jbad = True
+                    break
+                if o.get("type") not in ("match", "context"):
+                    continue
+                d = o["data"]
+                ln = d["lines"]
+                raw = ln["text"].encode("utf-8") if "text" in ln else base64.b64decode(ln["bytes"])
+                # a multi-line record carries several lines: split them
+                first = d.get("line_number")
+                pieces = raw.split(b"\n")
+                if pieces and pieces[-1] == b"":
+                    pieces.pop()
+                for k, piece in enumerate(pieces):
+                    jgot.append((first + k if first is not None else None, piece + b"\n"))
+            jwant = [(l, c if c.endswith(b"\n") else c + b"\n") for l, c in want]
+            # rg re-terminates an unterminated last line in text output only
+            if jgot and jwant and not data.endswith(b"\n") and jgot[-1][1] == jwant[-1][1][:-2 if case["term"] == "crlf" else -1] + b"\n":
+                jgot[-1] = jwant[-1]
+            if jbad or [g[0] for g in jgot] != [w[0] for w in jwant]:
+                env.viol("C16:cli:max-count-json",
+                         "rg --json -m %d %s: lines %s, expected %s" % (n, " ".join(args), [g[0] for g in jgot][:12], [w[0] for w in jwant][:12]),
+                         {"kind": "cli", "argv": jargv[:-1] + ["<file>"], "input": case["input"],
+                          "stdout": esc(rj[1][:3000]), "expected": [[w[0], esc(w[1])] for w in want][:200]})
         env.sample({"argv": ["rg"] + argv[:-1] + ["<file>"], "input": case["input"][:100],
                     "expected_lines": [w[0] for w in want][:20]})
 
